@@ -149,6 +149,9 @@ def replayOp : Op → KSt → Option KSt
     else match Spec.dirsToMake (Spec.visible s.sp) s.sp.cacheFile s.sp.inProg path.dropLast with
       | .error _ => none
       | .ok made =>
+        -- directories with over-long names cannot be made (nor can a record mention them: they could
+        -- not be made when it was recorded either)
+        if made.any Path.tooLong then none else
         let sp := s.sp
         let s1 := { s with
           -- `_apply_cached_suboperations` makes the directories of reused successful outputs only
